@@ -101,3 +101,118 @@ package apicodec
 //@   requires wellformed: encodedEnd != menc("")
 //@   modifies nothing
 //@   ensures same: result2 == nil ==> forall k []byte :: inRange(k, result0, result1) <==> inRange(menc(enc(c, k)), encodedStart, encodedEnd)
+
+// ---- lists of keys, mutations, pairs and ranges: element-wise encoding into fresh lists; the inputs are left alone ----
+//@ func (*codecV2) encodeKeys
+//@   prop C15
+//@   bytes: key
+//@   ensures all: len(result) == len(keys) && forall i int :: 0 <= i && i < len(keys) ==> result[i] == enc(c, keys[i])
+//@   ensures kept: forall i int :: 0 <= i && i < len(keys) ==> keys[i] == old(keys[i])
+//@   loop 1 invariant all: len(encodedKeys) == rangeindex + 1 && -1 <= rangeindex && rangeindex < len(keys) && forall i int :: 0 <= i && i <= rangeindex ==> encodedKeys[i] == enc(c, keys[i])
+
+//@ func (*codecV2) encodeMutations
+//@   prop C15
+//@   bytes: key
+//@   requires forall i int :: 0 <= i && i < len(mutations) ==> mutations[i] != nil
+//@   ensures all: len(result) == len(mutations) && forall i int :: 0 <= i && i < len(mutations) ==> result[i] != nil && result[i].Key == enc(c, mutations[i].Key) &&
+//@       result[i].Op == mutations[i].Op && result[i].Value == mutations[i].Value && result[i].Assertion == mutations[i].Assertion
+//@   ensures kept: forall i int :: 0 <= i && i < len(mutations) ==> mutations[i] == old(mutations[i]) && mutations[i].Key == old(mutations[i].Key)
+//@   loop 1 invariant all: len(encodedMutations) == rangeindex + 1 && -1 <= rangeindex && rangeindex < len(mutations) && forall i int :: 0 <= i && i <= rangeindex ==> encodedMutations[i] != nil && fresh(encodedMutations[i]) &&
+//@       encodedMutations[i].Key == enc(c, mutations[i].Key) && encodedMutations[i].Op == mutations[i].Op && encodedMutations[i].Value == mutations[i].Value && encodedMutations[i].Assertion == mutations[i].Assertion
+//@   loop 1 invariant kept: forall i int :: 0 <= i && i < len(mutations) ==> mutations[i] == old(mutations[i]) && mutations[i].Key == old(mutations[i].Key)
+
+// setAPICtx stamps the API version and keyspace into the request's context; only MPP and compact requests get a patched
+// payload (a copy), every other payload pointer is left as it is.
+//@ func setAPICtx
+//@   prop C15
+//@   modifies kvrpcpb.Context.ApiVersion, kvrpcpb.Context.Keyspace, kvrpcpb.Context.KeyspaceName, tikvrpc.Request.Req of r
+//@   ensures kept: r.Type == old(r.Type) && (r.Type != tikvrpc.CmdMPPTask && r.Type != tikvrpc.CmdCompact ==> r.Req == old(r.Req))
+
+//@ func (*codecV2) encodeParis
+//@   prop C15
+//@   bytes: key
+//@   requires forall i int :: 0 <= i && i < len(pairs) ==> pairs[i] != nil
+//@   ensures all: len(result) == len(pairs) && forall i int :: 0 <= i && i < len(pairs) ==> result[i] != nil && result[i].Key == enc(c, pairs[i].Key) && result[i].Value == pairs[i].Value
+//@   ensures kept: forall i int :: 0 <= i && i < len(pairs) ==> pairs[i] == old(pairs[i]) && pairs[i].Key == old(pairs[i].Key)
+//@   loop 1 invariant all: len(encodedPairs) == rangeindex + 1 && -1 <= rangeindex && rangeindex < len(pairs) && forall i int :: 0 <= i && i <= rangeindex ==> encodedPairs[i] != nil && fresh(encodedPairs[i]) &&
+//@       encodedPairs[i].Key == enc(c, pairs[i].Key) && encodedPairs[i].Value == pairs[i].Value
+//@   loop 1 invariant kept: forall i int :: 0 <= i && i < len(pairs) ==> pairs[i] == old(pairs[i]) && pairs[i].Key == old(pairs[i].Key)
+
+//@ spec func rangeEnc(c *codecV2, s []byte, e []byte, ns []byte, ne []byte) bool { return ne != "" && forall k []byte :: inRange(k, s, e) <==> (ns <= enc(c, k) && enc(c, k) < ne) }
+//@ spec func rangeEncRev(c *codecV2, s []byte, e []byte, ns []byte, ne []byte) bool { return ns != "" && forall k []byte :: inRange(k, e, s) <==> (ne <= enc(c, k) && enc(c, k) < ns) }
+//@ spec func keysEnc(c *codecV2, ks [][]byte, rs [][]byte) bool { return len(rs) == len(ks) && forall i int :: 0 <= i && i < len(ks) ==> rs[i] == enc(c, ks[i]) }
+//@ spec func mutsOK(ms []*kvrpcpb.Mutation) bool { return forall i int :: 0 <= i && i < len(ms) ==> ms[i] != nil }
+//@ spec func mutsEnc(c *codecV2, ms []*kvrpcpb.Mutation, rs []*kvrpcpb.Mutation) bool { return len(rs) == len(ms) && forall i int :: 0 <= i && i < len(ms) ==> rs[i] != nil && rs[i].Key == enc(c, ms[i].Key) && rs[i].Op == ms[i].Op && rs[i].Value == ms[i].Value && rs[i].Assertion == ms[i].Assertion }
+//@ spec func pairsOK(ps []*kvrpcpb.KvPair) bool { return forall i int :: 0 <= i && i < len(ps) ==> ps[i] != nil }
+//@ spec func pairsEnc(c *codecV2, ps []*kvrpcpb.KvPair, rs []*kvrpcpb.KvPair) bool { return len(rs) == len(ps) && forall i int :: 0 <= i && i < len(ps) ==> rs[i] != nil && rs[i].Key == enc(c, ps[i].Key) && rs[i].Value == ps[i].Value }
+//@ spec func krangesOK(ps []*kvrpcpb.KeyRange) bool { return forall i int :: 0 <= i && i < len(ps) ==> ps[i] != nil }
+//@ spec func krangesEnc(c *codecV2, ps []*kvrpcpb.KeyRange, rs []*kvrpcpb.KeyRange) bool { return len(rs) == len(ps) && forall i int :: 0 <= i && i < len(ps) ==> rs[i] != nil && rangeEnc(c, ps[i].StartKey, ps[i].EndKey, rs[i].StartKey, rs[i].EndKey) }
+
+//@ func (*codecV2) encodeKeyRange
+//@   prop C15
+//@   bytes: key
+//@   requires ksOK(c) && keyRange != nil
+//@   modifies nothing
+//@   ensures result != nil && fresh(result) && rangeEnc(c, keyRange.StartKey, keyRange.EndKey, result.StartKey, result.EndKey)
+
+//@ func (*codecV2) encodeKeyRanges
+//@   prop C15
+//@   bytes: key
+//@   requires ksOK(c) && krangesOK(keyRanges)
+//@   ensures krangesEnc(c, keyRanges, result)
+//@   loop 1 invariant all: len(encodedRanges) == rangeindex + 1 && -1 <= rangeindex && rangeindex < len(keyRanges) && forall i int :: 0 <= i && i <= rangeindex ==> encodedRanges[i] != nil && fresh(encodedRanges[i]) &&
+//@       rangeEnc(c, keyRanges[i].StartKey, keyRanges[i].EndKey, encodedRanges[i].StartKey, encodedRanges[i].EndKey)
+//@   loop 1 invariant kept: forall i int :: 0 <= i && i < len(keyRanges) ==> keyRanges[i] == old(keyRanges[i]) && keyRanges[i].StartKey == old(keyRanges[i].StartKey) && keyRanges[i].EndKey == old(keyRanges[i].EndKey)
+
+// EncodeRequest works on a clone: the caller's request keeps its payload, the clone carries a copy of the payload in
+// which every key-bearing field (table: tools/gen_c15_encode_contract.py in /verif, from the kvrpcpb message
+// definitions) is the wire form of the caller's field. Well-formed input: the payload has the type the command says
+// (a mismatch panics in the typed accessor; not excluded here: may-panic), list entries are not nil, the deprecated
+// single SplitKey is not used. Not covered: coprocessor, batch-coprocessor and MPP payloads.
+//@ func (*codecV2) EncodeRequest
+//@   prop C15
+//@   bytes: key
+//@   may-panic
+//@   requires ksOK(c)
+//@   requires req.Type == tikvrpc.CmdPrewrite ==> mutsOK(req.Req.(*kvrpcpb.PrewriteRequest).Mutations)
+//@   requires req.Type == tikvrpc.CmdPessimisticLock ==> mutsOK(req.Req.(*kvrpcpb.PessimisticLockRequest).Mutations)
+//@   requires req.Type == tikvrpc.CmdFlush ==> mutsOK(req.Req.(*kvrpcpb.FlushRequest).Mutations)
+//@   requires req.Type == tikvrpc.CmdRawBatchPut ==> pairsOK(req.Req.(*kvrpcpb.RawBatchPutRequest).Pairs)
+//@   requires req.Type == tikvrpc.CmdRawChecksum ==> krangesOK(req.Req.(*kvrpcpb.RawChecksumRequest).Ranges)
+//@   requires req.Type == tikvrpc.CmdStoreSafeTS ==> req.Req.(*kvrpcpb.StoreSafeTSRequest).KeyRange != nil
+//@   ensures clone: result1 == nil && result0 != nil && result0 != req && result0.Type == req.Type && req.Req == old(req.Req)
+//@   ensures get: req.Type == tikvrpc.CmdGet ==> result0.Req != req.Req && result0.Req.(*kvrpcpb.GetRequest).Key == enc(c, old(req.Req.(*kvrpcpb.GetRequest).Key)) && req.Req.(*kvrpcpb.GetRequest).Key == old(req.Req.(*kvrpcpb.GetRequest).Key)
+//@   ensures scan: req.Type == tikvrpc.CmdScan ==> result0.Req != req.Req && ite(old(req.Req.(*kvrpcpb.ScanRequest).Reverse), rangeEncRev(c, old(req.Req.(*kvrpcpb.ScanRequest).StartKey), old(req.Req.(*kvrpcpb.ScanRequest).EndKey), result0.Req.(*kvrpcpb.ScanRequest).StartKey, result0.Req.(*kvrpcpb.ScanRequest).EndKey), rangeEnc(c, old(req.Req.(*kvrpcpb.ScanRequest).StartKey), old(req.Req.(*kvrpcpb.ScanRequest).EndKey), result0.Req.(*kvrpcpb.ScanRequest).StartKey, result0.Req.(*kvrpcpb.ScanRequest).EndKey))
+//@   ensures prewrite: req.Type == tikvrpc.CmdPrewrite ==> result0.Req != req.Req && mutsEnc(c, old(req.Req.(*kvrpcpb.PrewriteRequest).Mutations), result0.Req.(*kvrpcpb.PrewriteRequest).Mutations) && result0.Req.(*kvrpcpb.PrewriteRequest).PrimaryLock == enc(c, old(req.Req.(*kvrpcpb.PrewriteRequest).PrimaryLock)) && req.Req.(*kvrpcpb.PrewriteRequest).PrimaryLock == old(req.Req.(*kvrpcpb.PrewriteRequest).PrimaryLock) && keysEnc(c, old(req.Req.(*kvrpcpb.PrewriteRequest).Secondaries), result0.Req.(*kvrpcpb.PrewriteRequest).Secondaries)
+//@   ensures commit: req.Type == tikvrpc.CmdCommit ==> result0.Req != req.Req && keysEnc(c, old(req.Req.(*kvrpcpb.CommitRequest).Keys), result0.Req.(*kvrpcpb.CommitRequest).Keys) && result0.Req.(*kvrpcpb.CommitRequest).PrimaryKey == ite(old(req.Req.(*kvrpcpb.CommitRequest).PrimaryKey) == "", "", enc(c, old(req.Req.(*kvrpcpb.CommitRequest).PrimaryKey)))
+//@   ensures cleanup: req.Type == tikvrpc.CmdCleanup ==> result0.Req != req.Req && result0.Req.(*kvrpcpb.CleanupRequest).Key == enc(c, old(req.Req.(*kvrpcpb.CleanupRequest).Key)) && req.Req.(*kvrpcpb.CleanupRequest).Key == old(req.Req.(*kvrpcpb.CleanupRequest).Key)
+//@   ensures batchget: req.Type == tikvrpc.CmdBatchGet ==> result0.Req != req.Req && keysEnc(c, old(req.Req.(*kvrpcpb.BatchGetRequest).Keys), result0.Req.(*kvrpcpb.BatchGetRequest).Keys)
+//@   ensures batchrollback: req.Type == tikvrpc.CmdBatchRollback ==> result0.Req != req.Req && keysEnc(c, old(req.Req.(*kvrpcpb.BatchRollbackRequest).Keys), result0.Req.(*kvrpcpb.BatchRollbackRequest).Keys)
+//@   ensures scanlock: req.Type == tikvrpc.CmdScanLock ==> result0.Req != req.Req && rangeEnc(c, old(req.Req.(*kvrpcpb.ScanLockRequest).StartKey), old(req.Req.(*kvrpcpb.ScanLockRequest).EndKey), result0.Req.(*kvrpcpb.ScanLockRequest).StartKey, result0.Req.(*kvrpcpb.ScanLockRequest).EndKey)
+//@   ensures resolvelock: req.Type == tikvrpc.CmdResolveLock ==> result0.Req != req.Req && keysEnc(c, old(req.Req.(*kvrpcpb.ResolveLockRequest).Keys), result0.Req.(*kvrpcpb.ResolveLockRequest).Keys)
+//@   ensures deleterange: req.Type == tikvrpc.CmdDeleteRange ==> result0.Req != req.Req && rangeEnc(c, old(req.Req.(*kvrpcpb.DeleteRangeRequest).StartKey), old(req.Req.(*kvrpcpb.DeleteRangeRequest).EndKey), result0.Req.(*kvrpcpb.DeleteRangeRequest).StartKey, result0.Req.(*kvrpcpb.DeleteRangeRequest).EndKey)
+//@   ensures pessimisticlock: req.Type == tikvrpc.CmdPessimisticLock ==> result0.Req != req.Req && mutsEnc(c, old(req.Req.(*kvrpcpb.PessimisticLockRequest).Mutations), result0.Req.(*kvrpcpb.PessimisticLockRequest).Mutations) && result0.Req.(*kvrpcpb.PessimisticLockRequest).PrimaryLock == enc(c, old(req.Req.(*kvrpcpb.PessimisticLockRequest).PrimaryLock)) && req.Req.(*kvrpcpb.PessimisticLockRequest).PrimaryLock == old(req.Req.(*kvrpcpb.PessimisticLockRequest).PrimaryLock)
+//@   ensures pessimisticrollback: req.Type == tikvrpc.CmdPessimisticRollback ==> result0.Req != req.Req && keysEnc(c, old(req.Req.(*kvrpcpb.PessimisticRollbackRequest).Keys), result0.Req.(*kvrpcpb.PessimisticRollbackRequest).Keys)
+//@   ensures txnheartbeat: req.Type == tikvrpc.CmdTxnHeartBeat ==> result0.Req != req.Req && result0.Req.(*kvrpcpb.TxnHeartBeatRequest).PrimaryLock == enc(c, old(req.Req.(*kvrpcpb.TxnHeartBeatRequest).PrimaryLock)) && req.Req.(*kvrpcpb.TxnHeartBeatRequest).PrimaryLock == old(req.Req.(*kvrpcpb.TxnHeartBeatRequest).PrimaryLock)
+//@   ensures checktxnstatus: req.Type == tikvrpc.CmdCheckTxnStatus ==> result0.Req != req.Req && result0.Req.(*kvrpcpb.CheckTxnStatusRequest).PrimaryKey == enc(c, old(req.Req.(*kvrpcpb.CheckTxnStatusRequest).PrimaryKey)) && req.Req.(*kvrpcpb.CheckTxnStatusRequest).PrimaryKey == old(req.Req.(*kvrpcpb.CheckTxnStatusRequest).PrimaryKey)
+//@   ensures checksecondarylocks: req.Type == tikvrpc.CmdCheckSecondaryLocks ==> result0.Req != req.Req && keysEnc(c, old(req.Req.(*kvrpcpb.CheckSecondaryLocksRequest).Keys), result0.Req.(*kvrpcpb.CheckSecondaryLocksRequest).Keys)
+//@   ensures flush: req.Type == tikvrpc.CmdFlush ==> result0.Req != req.Req && mutsEnc(c, old(req.Req.(*kvrpcpb.FlushRequest).Mutations), result0.Req.(*kvrpcpb.FlushRequest).Mutations) && result0.Req.(*kvrpcpb.FlushRequest).PrimaryKey == ite(old(req.Req.(*kvrpcpb.FlushRequest).PrimaryKey) == "", "", enc(c, old(req.Req.(*kvrpcpb.FlushRequest).PrimaryKey)))
+//@   ensures bufferbatchget: req.Type == tikvrpc.CmdBufferBatchGet ==> result0.Req != req.Req && keysEnc(c, old(req.Req.(*kvrpcpb.BufferBatchGetRequest).Keys), result0.Req.(*kvrpcpb.BufferBatchGetRequest).Keys)
+//@   ensures flashbacktoversion: req.Type == tikvrpc.CmdFlashbackToVersion ==> result0.Req != req.Req && rangeEnc(c, old(req.Req.(*kvrpcpb.FlashbackToVersionRequest).StartKey), old(req.Req.(*kvrpcpb.FlashbackToVersionRequest).EndKey), result0.Req.(*kvrpcpb.FlashbackToVersionRequest).StartKey, result0.Req.(*kvrpcpb.FlashbackToVersionRequest).EndKey)
+//@   ensures prepareflashbacktoversion: req.Type == tikvrpc.CmdPrepareFlashbackToVersion ==> result0.Req != req.Req && rangeEnc(c, old(req.Req.(*kvrpcpb.PrepareFlashbackToVersionRequest).StartKey), old(req.Req.(*kvrpcpb.PrepareFlashbackToVersionRequest).EndKey), result0.Req.(*kvrpcpb.PrepareFlashbackToVersionRequest).StartKey, result0.Req.(*kvrpcpb.PrepareFlashbackToVersionRequest).EndKey)
+//@   ensures rawget: req.Type == tikvrpc.CmdRawGet ==> result0.Req != req.Req && result0.Req.(*kvrpcpb.RawGetRequest).Key == enc(c, old(req.Req.(*kvrpcpb.RawGetRequest).Key)) && req.Req.(*kvrpcpb.RawGetRequest).Key == old(req.Req.(*kvrpcpb.RawGetRequest).Key)
+//@   ensures rawbatchget: req.Type == tikvrpc.CmdRawBatchGet ==> result0.Req != req.Req && keysEnc(c, old(req.Req.(*kvrpcpb.RawBatchGetRequest).Keys), result0.Req.(*kvrpcpb.RawBatchGetRequest).Keys)
+//@   ensures rawput: req.Type == tikvrpc.CmdRawPut ==> result0.Req != req.Req && result0.Req.(*kvrpcpb.RawPutRequest).Key == enc(c, old(req.Req.(*kvrpcpb.RawPutRequest).Key)) && req.Req.(*kvrpcpb.RawPutRequest).Key == old(req.Req.(*kvrpcpb.RawPutRequest).Key)
+//@   ensures rawbatchput: req.Type == tikvrpc.CmdRawBatchPut ==> result0.Req != req.Req && pairsEnc(c, old(req.Req.(*kvrpcpb.RawBatchPutRequest).Pairs), result0.Req.(*kvrpcpb.RawBatchPutRequest).Pairs)
+//@   ensures rawdelete: req.Type == tikvrpc.CmdRawDelete ==> result0.Req != req.Req && result0.Req.(*kvrpcpb.RawDeleteRequest).Key == enc(c, old(req.Req.(*kvrpcpb.RawDeleteRequest).Key)) && req.Req.(*kvrpcpb.RawDeleteRequest).Key == old(req.Req.(*kvrpcpb.RawDeleteRequest).Key)
+//@   ensures rawbatchdelete: req.Type == tikvrpc.CmdRawBatchDelete ==> result0.Req != req.Req && keysEnc(c, old(req.Req.(*kvrpcpb.RawBatchDeleteRequest).Keys), result0.Req.(*kvrpcpb.RawBatchDeleteRequest).Keys)
+//@   ensures rawdeleterange: req.Type == tikvrpc.CmdRawDeleteRange ==> result0.Req != req.Req && rangeEnc(c, old(req.Req.(*kvrpcpb.RawDeleteRangeRequest).StartKey), old(req.Req.(*kvrpcpb.RawDeleteRangeRequest).EndKey), result0.Req.(*kvrpcpb.RawDeleteRangeRequest).StartKey, result0.Req.(*kvrpcpb.RawDeleteRangeRequest).EndKey)
+//@   ensures rawscan: req.Type == tikvrpc.CmdRawScan ==> result0.Req != req.Req && ite(old(req.Req.(*kvrpcpb.RawScanRequest).Reverse), rangeEncRev(c, old(req.Req.(*kvrpcpb.RawScanRequest).StartKey), old(req.Req.(*kvrpcpb.RawScanRequest).EndKey), result0.Req.(*kvrpcpb.RawScanRequest).StartKey, result0.Req.(*kvrpcpb.RawScanRequest).EndKey), rangeEnc(c, old(req.Req.(*kvrpcpb.RawScanRequest).StartKey), old(req.Req.(*kvrpcpb.RawScanRequest).EndKey), result0.Req.(*kvrpcpb.RawScanRequest).StartKey, result0.Req.(*kvrpcpb.RawScanRequest).EndKey))
+//@   ensures getkeyttl: req.Type == tikvrpc.CmdGetKeyTTL ==> result0.Req != req.Req && result0.Req.(*kvrpcpb.RawGetKeyTTLRequest).Key == enc(c, old(req.Req.(*kvrpcpb.RawGetKeyTTLRequest).Key)) && req.Req.(*kvrpcpb.RawGetKeyTTLRequest).Key == old(req.Req.(*kvrpcpb.RawGetKeyTTLRequest).Key)
+//@   ensures rawcompareandswap: req.Type == tikvrpc.CmdRawCompareAndSwap ==> result0.Req != req.Req && result0.Req.(*kvrpcpb.RawCASRequest).Key == enc(c, old(req.Req.(*kvrpcpb.RawCASRequest).Key)) && req.Req.(*kvrpcpb.RawCASRequest).Key == old(req.Req.(*kvrpcpb.RawCASRequest).Key)
+//@   ensures rawchecksum: req.Type == tikvrpc.CmdRawChecksum ==> result0.Req != req.Req && krangesEnc(c, old(req.Req.(*kvrpcpb.RawChecksumRequest).Ranges), result0.Req.(*kvrpcpb.RawChecksumRequest).Ranges)
+//@   ensures unsafedestroyrange: req.Type == tikvrpc.CmdUnsafeDestroyRange ==> result0.Req != req.Req && rangeEnc(c, old(req.Req.(*kvrpcpb.UnsafeDestroyRangeRequest).StartKey), old(req.Req.(*kvrpcpb.UnsafeDestroyRangeRequest).EndKey), result0.Req.(*kvrpcpb.UnsafeDestroyRangeRequest).StartKey, result0.Req.(*kvrpcpb.UnsafeDestroyRangeRequest).EndKey)
+//@   ensures physicalscanlock: req.Type == tikvrpc.CmdPhysicalScanLock ==> result0.Req != req.Req && result0.Req.(*kvrpcpb.PhysicalScanLockRequest).StartKey == enc(c, old(req.Req.(*kvrpcpb.PhysicalScanLockRequest).StartKey)) && req.Req.(*kvrpcpb.PhysicalScanLockRequest).StartKey == old(req.Req.(*kvrpcpb.PhysicalScanLockRequest).StartKey)
+//@   ensures storesafets: req.Type == tikvrpc.CmdStoreSafeTS ==> result0.Req != req.Req && result0.Req.(*kvrpcpb.StoreSafeTSRequest).KeyRange != nil && rangeEnc(c, old(req.Req.(*kvrpcpb.StoreSafeTSRequest).KeyRange.StartKey), old(req.Req.(*kvrpcpb.StoreSafeTSRequest).KeyRange.EndKey), result0.Req.(*kvrpcpb.StoreSafeTSRequest).KeyRange.StartKey, result0.Req.(*kvrpcpb.StoreSafeTSRequest).KeyRange.EndKey)
+//@   ensures mvccgetbykey: req.Type == tikvrpc.CmdMvccGetByKey ==> result0.Req != req.Req && result0.Req.(*kvrpcpb.MvccGetByKeyRequest).Key == enc(c, old(req.Req.(*kvrpcpb.MvccGetByKeyRequest).Key)) && req.Req.(*kvrpcpb.MvccGetByKeyRequest).Key == old(req.Req.(*kvrpcpb.MvccGetByKeyRequest).Key)
+//@   ensures splitregion: req.Type == tikvrpc.CmdSplitRegion ==> result0.Req != req.Req && keysEnc(c, old(req.Req.(*kvrpcpb.SplitRegionRequest).SplitKeys), result0.Req.(*kvrpcpb.SplitRegionRequest).SplitKeys)
